@@ -33,7 +33,7 @@ pub fn seq_strategy(fam: &Family) -> BoxedStrategy<Seq> {
     let step = prop_oneof![
         3 => Just(Step::Repeat),
         4 => Just(Step::Advance),
-        2 => (0usize..4).prop_map(Step::Breaking),
+        2 => (0usize..8).prop_map(Step::Breaking),
         1 => Just(Step::Back),
     ];
     (prop_oneof![2 => Just(None), 1 => (0..nc).prop_map(Some)], proptest::collection::vec(step, 1..=7)).prop_map(|(start, steps)| Seq { start, steps }).boxed()
